@@ -428,6 +428,18 @@ def replay(case):
     res = ShardResult()
     check_program.ilog = InteractLog()
     d = common.scratch_dir("C01r")
+    if "idx" not in case:
+        # hand-written batteries: re-run the battery the case came from, report its violations
+        spec = {"scratch": d, "seed": case.get("seed", 0)}
+        if "nested_global" in case:
+            check_nested_global_snapshot(spec, res, [])
+        elif "shadowing" in case:
+            check_global_shadowing(spec, res)
+        else:
+            check_shapes(spec, res)
+        for v in res.violations:
+            print("PROBLEM:", str(v["why"])[:600])
+        return res.violations
     rnd = rng_for("C01", case["seed"], case["idx"])
     m = progen.build_module(rnd, {"exclude": case.get("exclude", []), "max_stmts": case.get("max_stmts", 8)})
     assert m["src"] == case["src"], "generator drifted: replaying stored source is not possible for this case"
